@@ -379,7 +379,7 @@ func c05Scope(f polyFamily, cfgs []offCfg, level int) *drv.Scope {
 				all = append(all, g...)
 			}
 			nt := false
-			for _, cfg := range cfgs {
+			for ci, cfg := range cfgs {
 				var out Paths
 				if len(gs) == 1 {
 					out = clipper.InflatePaths64(gs[0], cfg.delta, cfg.jt, clipper.Polygon, clipper.WithMitterLimit(cfg.miter), clipper.WithArcTolerance(cfg.arc))
@@ -400,6 +400,18 @@ func c05Scope(f polyFamily, cfgs []offCfg, level int) *drv.Scope {
 				}
 				if len(out) == 0 && cfg.delta < 0 {
 					c.Count("over_shrunk_to_nothing", 1)
+				}
+				// the same polygons spelt as explicitly closed rings (a,b,c,a): same region, same oracle
+				if len(gs) == 1 && (idx+uint64(ci))%3 == 0 {
+					ring := make(Paths, len(gs[0]))
+					for i, p := range gs[0] {
+						ring[i] = append(append(make(Path, 0, len(p)+1), p...), p[0])
+					}
+					out2 := clipper.InflatePaths64(ring, cfg.delta, cfg.jt, clipper.Polygon, clipper.WithMitterLimit(cfg.miter), clipper.WithArcTolerance(cfg.arc))
+					c.Exec(1)
+					if kind, detail := c05Check(&w, all, out2, cfg); kind != "" {
+						c.Fail(kind, cfg.String()+" closed ring", "%s, every path with its first vertex repeated at the end: %s; input %v result %v", cfg.String(), detail, ring, out2)
+					}
 				}
 			}
 			if nt {
